@@ -150,6 +150,7 @@ type c17Letter struct {
 var c17Letters = []c17Letter{
 	{"Put(a)", "put", "a", 0}, {"Put(b)", "put", "b", 0}, {"Delete(a)", "del", "a", 0}, {"Compact", "compact", "", 0}, {"Reopen", "reopen", "", 0},
 	{"Backup", "backup", "", 0}, {"Torn(3 bytes of a record)", "torn", "", 0}, {"Torn(record with bad CRC)", "torn", "", 1}, {"Torn(600 zero bytes)", "torn", "", 2}, {"BigPut(c)", "bigput", "c", 0}, {"HugePut(b)", "hugeput", "b", 0},
+	{"Torn(leftovers of an interrupted recovery: *.bac files exist)", "torn", "", 3},
 }
 
 func tornTail(i int, keyA []byte) []byte {
@@ -306,7 +307,27 @@ func runC17Word(t *fsTarget, cfg explore.Config, keys map[string][]byte, word []
 					trace = append(trace, step+" lock: "+err.Error())
 					return
 				}
-				if err := t.appendTo(seg, tornTail(l.Tail, keys["a"])); err != nil {
+				if l.Tail == 3 {
+					// what a recovery that was interrupted after moving the index and metadata files aside leaves behind:
+					// <name>.bac next to (re-created) files of the original names. The next recovery renames onto them.
+					for _, n := range []string{"main.pix", "overflow.pix", "index.pmt", "db.pmt"} {
+						data, err := t.readFile(t.dir, n)
+						if err != nil {
+							continue
+						}
+						f, err := t.fsys.OpenFile(filepath.Join(t.dir, n+".bac"), os.O_CREATE|os.O_RDWR|os.O_TRUNC, 0640)
+						if err != nil {
+							trace = append(trace, step+" creating .bac: "+err.Error())
+							return
+						}
+						if _, err := f.Write(data[:len(data)/2]); err != nil {
+							_ = f.Close()
+							trace = append(trace, step+" writing .bac: "+err.Error())
+							return
+						}
+						_ = f.Close()
+					}
+				} else if err := t.appendTo(seg, tornTail(l.Tail, keys["a"])); err != nil {
 					trace = append(trace, step+" append: "+err.Error())
 					return
 				}
@@ -353,10 +374,10 @@ func runC17(c *explore.Ctx) {
 	for _, cfg := range cfgs {
 		letters := c17Letters
 		if cfg.Name == "BIG2" {
-			letters = c17Letters[:10] // the 3 MiB record is exercised under the default segment size only
+			letters = append(append([]c17Letter(nil), c17Letters[:10]...), c17Letters[11]) // the 3 MiB record is exercised under the default segment size only
 		}
 		if cfg.Name == "ROLL" {
-			letters = c17Letters[:9] // the big record does not fit a ROLL segment on any file system (same error everywhere, nothing to compare)
+			letters = append(append([]c17Letter(nil), c17Letters[:9]...), c17Letters[11]) // the big record does not fit a ROLL segment on any file system (same error everywhere, nothing to compare)
 		}
 		idx := make([]int, depth)
 		var rec func(pos int) bool
